@@ -12,6 +12,10 @@ build() {
   ( cd /verif/harness && cp -n /repo/Cargo.lock Cargo.lock 2>/dev/null; cargo build --offline --bins ) >"$LOG/build-harness.log" 2>&1 || { echo "inconclusive: harness build failed (see $LOG/build-harness.log)"; tail -20 "$LOG/build-harness.log"; return 2; }
   # product binaries exactly as shipped (no hook feature), optimised so that Ed25519 is not 50x slow
   ( cd /repo && CARGO_PROFILE_DEV_OPT_LEVEL=2 CARGO_PROFILE_DEV_DEBUG=0 CARGO_PROFILE_DEV_INCREMENTAL=false cargo build --offline --bins --target-dir /verif/target-repo ) >"$LOG/build-repo.log" 2>&1 || { echo "inconclusive: /repo build failed (see $LOG/build-repo.log)"; tail -20 "$LOG/build-repo.log"; return 2; }
+  # LD_PRELOAD clock shim for C11's clock-step check (optional: without a C compiler that check reports itself skipped)
+  if [ ! -f /verif/target/clockshim.so ] || [ /verif/harness/shim/clockshim.c -nt /verif/target/clockshim.so ]; then
+    ( cc -shared -fPIC -O1 -o /verif/target/clockshim.so.tmp /verif/harness/shim/clockshim.c -ldl && mv /verif/target/clockshim.so.tmp /verif/target/clockshim.so ) >"$LOG/build-shim.log" 2>&1 || true
+  fi
   return 0
 }
 
